@@ -75,6 +75,16 @@ pub fn c06(st: &Step, v: &mut Verdicts) {
     if c == 'B' && (pre.buf != post.buf || pre.cursor != post.cursor || pre.len != post.len || pre.phone != post.phone) {
         v.push(("C06", format!("a bell key changed pre-edit or cursor: {:?}/{} -> {:?}/{}", pre.buf, pre.cursor, post.buf, post.cursor)));
     }
+    if c == 'B' {
+        // Props/C06.lean bell_keeps_display / bell_effect: every getter answer except the per-key outputs is as before
+        // (open list, page, choices, phonetic buffer, modes and options included) and nothing is committed
+        if let Some(g) = pre.persistent_diff(post) {
+            v.push(("C06", format!("a key answered with a bell changed {}", g)));
+        }
+        if post.commit_check != 0 || !post.commit.is_empty() {
+            v.push(("C06", format!("commit string {:?} (commit_Check {}) available after a bell", post.commit, post.commit_check)));
+        }
+    }
     if let Op::Named(i) = st.op {
         if is_idle_key(*i) && pre.len == 0 && pre.buf_check == 0 && pre.bopo_check == 0 && !pre.selecting() && st.pre_state == b'E' && post.ignore != 1 {
             v.push(("C06", format!("pass-through key handle_{} with empty pre-edit and phonetic buffers was not reported as ignored (result {})", NAMED[*i as usize], c)));
